@@ -143,9 +143,42 @@ def rule_absorb_tables(ctx):
     # every inline implementation of the absorb table in decomp.py (the drivers that take shortcuts per mode):
     # whatever the local names, a returned triple must be None exactly where the code's name says nothing is returned
     n_inline = 0
+    n_weight = 0
+    WEIGHT = {None: None, "U": "none", "VH": "none", "Us": "s", "sVH": "s", "Usq": "sq", "sqVH": "sq"}
     for g2 in m.all_functions:
         if isinstance(g2.node, ast.Lambda) or "absorb" not in g2.params or g2.name in ("_do_absorb", "_do_absorb_numba"):
             continue
+        # the function's own names for (U, s, VH): what its `absorb is None` arm returns; square roots of its s
+        local_usv = None
+        for node in ast.walk(g2.node):
+            if isinstance(node, ast.If) and isinstance(node.test, ast.Compare) and src_of(node.test.left) == "absorb" and isinstance(node.test.ops[0], ast.Is) \
+                    and const_value(node.test.comparators[0], "x") is None:
+                for s_ in node.body:
+                    if isinstance(s_, ast.Return) and isinstance(s_.value, ast.Tuple) and len(s_.value.elts) == 3 and all(isinstance(e_, ast.Name) for e_ in s_.value.elts):
+                        local_usv = tuple(e_.id for e_ in s_.value.elts)
+        sqrt_vars = set()
+        if local_usv:
+            for a_ in ast.walk(g2.node):
+                if isinstance(a_, ast.Assign) and len(a_.targets) == 1 and isinstance(a_.targets[0], ast.Name) and isinstance(a_.value, ast.Call) \
+                        and ((dotted(a_.value.func) or "").endswith("sqrt") or (a_.value.args and const_value(a_.value.args[0], None) == "sqrt")) \
+                        and any(isinstance(y, ast.Name) and y.id == local_usv[1] for y in ast.walk(a_.value)):
+                    sqrt_vars.add(a_.targets[0].id)
+
+        def weight(expr):
+            if isinstance(expr, ast.Constant) and expr.value is None:
+                return None
+            fnames = {id(c_.func) for c_ in ast.walk(expr) if isinstance(c_, ast.Call)} | {id(a_.value) for a_ in ast.walk(expr) if isinstance(a_, ast.Attribute)}
+            names = {y.id for y in ast.walk(expr) if isinstance(y, ast.Name) and id(y) not in fnames}
+            if names - sqrt_vars - set(local_usv):
+                return "?"  # built from something else (a precomputed product, another spectrum): not judged
+            if names & sqrt_vars:
+                return "sq"
+            if local_usv[1] in names:
+                return "s"
+            if names & {local_usv[0], local_usv[2]}:
+                return "none"
+            return "?"
+
         for node in ast.walk(g2.node):
             if isinstance(node, ast.If) and isinstance(node.test, ast.Compare) and src_of(node.test.left) == "absorb" and len(node.test.ops) == 1:
                 cname = None
@@ -160,6 +193,19 @@ def rule_absorb_tables(ctx):
                         n_inline += 1
                         got = tuple(const_value(e_, "x") is None and isinstance(e_, ast.Constant) for e_ in s_.value.elts)
                         want = tuple(x_ is None for x_ in spelled_triple(cname))
+                        if got == want and local_usv and cname != "get_U_s_VH":
+                            # which factor carries the singular values (or their square root)
+                            sp = spelled_triple(cname)
+                            for slot, comp in ((0, sp[0]), (2, sp[2])):
+                                w = weight(s_.value.elts[slot])
+                                if w in (None, "?"):
+                                    continue
+                                n_weight += 1
+                                if w != WEIGHT.get(comp, "?"):
+                                    r.bad(Finding("absorb-tables", g2.qualname,
+                                                  f"for absorb == {cname} returns `{src_of(s_.value)[:70]}` (line {s_.lineno}): the {'left' if slot == 0 else 'right'} factor carries "
+                                                  f"{ {'none': 'no singular values', 's': 'the singular values', 'sq': 'their square root'}[w] } but the code spells `{comp}`",
+                                                  where=f"{m.relpath}:{s_.lineno}", operand=f"{cname}:weight"))
                         if got == want:
                             r.ok(f"{g2.qualname}[{cname}]", nontrivial=False)
                         else:
@@ -167,6 +213,7 @@ def rule_absorb_tables(ctx):
                                           f"for absorb == {cname} returns `{src_of(s_.value)[:60]}` (line {s_.lineno}): None-pattern {got} differs from {want} spelled by the code",
                                           where=f"{m.relpath}:{s_.lineno}", operand=f"{cname}:none-pattern"))
     r.floor(n_inline, 40, "inline absorb returns in split drivers")
+    r.floor(n_weight, 12, "inline absorb returns whose singular-value placement was decided")
     # transpose map
     tmap = env.get("_ABSORB_TRANSPOSE_MAP")
     if not isinstance(tmap, dict):
@@ -978,4 +1025,218 @@ def rule_full_spectrum_before_trim(ctx):
                     "counts on it, so the kept number is no longer the smallest that satisfies the rule on the full spectrum",
                     where=where, operand=src_of(prod.value.func)))
     r.floor(n, 2, "capped-capable decompositions feeding the trimming routine")
+    return r
+
+
+def rule_delegation_complete(ctx):
+    r = RuleResult(
+        "delegation-complete",
+        "a split driver that hands its work to another driver / to the truncation funnel of decomp.py (dense fall-back of the "
+        "iterative methods, numba twin, batch fall-back ...) passes on every truncation option both of them accept: an option "
+        "the delegating driver accepted (so parse_split_opts injected it) and the delegate would honour, but which this call "
+        "does not bind, is silently replaced by the delegate's default on that path only",
+    )
+    m = ctx.prog.module(DECOMP)
+    by_name = {f.name: f for f in m.all_functions if f.parent is None and not isinstance(f.node, ast.Lambda) and not f.is_alias}
+    OPTS = ("absorb", "max_bond", "cutoff", "cutoff_mode", "renorm")
+    drivers = [f for f, _, _ in _registered_drivers(ctx)]
+    # plus the helpers the registered drivers delegate to (one level)
+    n = 0
+    seen = set()
+    for f in drivers:
+        if f in seen:
+            continue
+        seen.add(f)
+        own = [p for p in OPTS if p in f.params]
+        if not own:
+            continue
+        for c in ast.walk(f.node):
+            if not isinstance(c, ast.Call):
+                continue
+            name = dotted(c.func) or ""
+            base = name.split(".")[0]
+            if name.endswith("._default_fn"):
+                callee = by_name.get(base)
+            else:
+                callee = by_name.get(name)
+            if callee is None or callee is f:
+                continue
+            both = [p for p in own if p in callee.params]
+            if len(both) < 2:
+                continue  # not a truncation delegate
+            if any(kw.arg is None for kw in c.keywords) or any(isinstance(a, ast.Starred) for a in c.args):
+                r.ok(f"{f.qualname}->{callee.name}", sample={"driver": f.qualname, "delegate": callee.name, "binds": "**opts"}, nontrivial=False)
+                n += 1
+                continue
+            pos = [p for p in callee.posparams]
+            bound = set(pos[: len(c.args)]) | {kw.arg for kw in c.keywords}
+            n += 1
+            missing = [p for p in both if p not in bound]
+            construct = f"{f.qualname}->{callee.name}@{'+'.join(sorted(bound & set(OPTS)))}"
+            if not missing:
+                r.ok(construct, sample={"driver": f.qualname, "delegate": callee.name, "options passed": sorted(bound & set(OPTS))})
+            else:
+                for p in missing:
+                    r.bad(Finding("delegation-complete", f.qualname,
+                                  f"`{src_of(c)[:80]}` delegates to {callee.name} without `{p}`, which both accept: on this path the caller's `{p}` is "
+                                  f"replaced by {callee.name}'s default",
+                                  where=f"{m.relpath}:{c.lineno}", operand=f"{callee.name}:{p}"))
+    r.floor(n, 10, "delegating calls between split drivers")
+    return r
+
+
+# ---------------------------------------------------------------- nonneg-before-sqrt
+_SQ_FAMILY = {"get_Usq_sqVH", "get_Usq", "get_sqVH"}
+
+
+def rule_nonneg_before_sqrt(ctx):
+    r = RuleResult(
+        "nonneg-before-sqrt",
+        "the hermitian-eigendecomposition split drivers hand eigenvalues (signed) to the truncation funnel, which takes their square "
+        "root for the absorb modes 'both' / 'lsqrt' / 'rsqrt': on every path to the funnel on which such a mode is possible the values "
+        "have been made non-negative (abs with the sign moved into a factor, or clipping when the operator is declared positive) — "
+        "decided by enumerating the paths of each driver under the assumption `absorb in {both, lsqrt, rsqrt}` with a "
+        "{signed, non-negative} abstract value for the spectrum",
+    )
+    m = ctx.prog.module(DECOMP)
+    n = 0
+    for f in m.all_functions:
+        if f.parent is not None or isinstance(f.node, ast.Lambda) or f.is_alias or "absorb" not in f.params:
+            continue
+        eigh_calls = [c for c in ast.walk(f.node) if isinstance(c, ast.Call) and (dotted(c.func) or "").endswith("eigh") and (dotted(c.func) or "") != f.name]
+        trims = [c for c in ast.walk(f.node) if isinstance(c, ast.Call) and (dotted(c.func) or "").startswith("_trim_and_renorm_svd_result")]
+        if not eigh_calls or not trims:
+            continue
+        n += 1
+        results = []  # (path description, state of the spectrum at the funnel)
+
+        def ev(t, env):
+            if isinstance(t, ast.Constant):
+                return bool(t.value)
+            if isinstance(t, ast.Name):
+                return env["flags"].get(t.id)
+            if isinstance(t, ast.UnaryOp) and isinstance(t.op, ast.Not):
+                v = ev(t.operand, env)
+                return None if v is None else (not v)
+            if isinstance(t, ast.Compare) and len(t.ops) == 1 and isinstance(t.left, ast.Name) and t.left.id == "absorb":
+                comp = t.comparators[0]
+                names = {x.id for x in ast.walk(comp) if isinstance(x, ast.Name)}
+                if isinstance(t.ops[0], (ast.In, ast.Eq)):
+                    if names and names <= _SQ_FAMILY and (isinstance(t.ops[0], ast.In) and names == _SQ_FAMILY or isinstance(t.ops[0], ast.Eq)):
+                        # `absorb in (all three)` is true under the assumption; a single `==` is true for one member only
+                        return True if isinstance(t.ops[0], ast.In) else None
+                    if names and not (names & _SQ_FAMILY):
+                        return False
+                return None
+            if isinstance(t, ast.BoolOp):
+                vs = [ev(v, env) for v in t.values]
+                if isinstance(t.op, ast.Or):
+                    # a disjunction of `absorb == X` over the whole family is true under the assumption
+                    eqs = set()
+                    for v in t.values:
+                        if isinstance(v, ast.Compare) and isinstance(v.left, ast.Name) and v.left.id == "absorb" and isinstance(v.ops[0], ast.Eq):
+                            eqs |= {x.id for x in ast.walk(v.comparators[0]) if isinstance(x, ast.Name)}
+                    if eqs >= _SQ_FAMILY:
+                        return True
+                    if any(v is True for v in vs):
+                        return True
+                    return False if all(v is False for v in vs) else None
+                if any(v is False for v in vs):
+                    return False
+                return True if all(v is True for v in vs) else None
+            return None
+
+        def is_nonneg_expr(e, var):
+            if isinstance(e, ast.Call):
+                nm = (dotted(e.func) or "").split(".")[-1]
+                if nm in ("abs", "absolute"):
+                    return True
+                if nm == "do" and e.args and const_value(e.args[0], None) in ("abs", "absolute"):
+                    return True
+                if nm == "clip" and len(e.args) >= 2 and const_value(e.args[1], None) in (0, 0.0):
+                    return True
+            return False
+
+        def run(stmts, env, out):
+            """enumerate paths through stmts; `out` collects envs that fall off the end."""
+            if not stmts:
+                out.append(env)
+                return
+            st, rest = stmts[0], stmts[1:]
+            if isinstance(st, ast.If):
+                v = ev(st.test, env)
+                arms = []
+                key = src_of(st.test)
+                if v is None and key in env["assume"]:
+                    v = env["assume"][key]
+                if v is None and isinstance(st.test, ast.UnaryOp) and isinstance(st.test.operand, ast.Name) and st.test.operand.id in env["assume"]:
+                    v = not env["assume"][st.test.operand.id]
+                if v is not False:
+                    e1 = {"sign": dict(env["sign"]), "flags": dict(env["flags"]), "assume": dict(env["assume"]), "desc": env["desc"] + ([f"{key}"] if v is None else [])}
+                    if v is None:
+                        e1["assume"][key] = True
+                        if isinstance(st.test, ast.Name):
+                            e1["flags"][st.test.id] = True
+                        if isinstance(st.test, ast.UnaryOp) and isinstance(st.test.operand, ast.Name):
+                            e1["assume"][st.test.operand.id] = False
+                    arms.append((st.body, e1))
+                if v is not True:
+                    e2 = {"sign": dict(env["sign"]), "flags": dict(env["flags"]), "assume": dict(env["assume"]), "desc": env["desc"] + ([f"not ({key})"] if v is None else [])}
+                    if v is None:
+                        e2["assume"][key] = False
+                        if isinstance(st.test, ast.Name):
+                            e2["flags"][st.test.id] = False
+                        if isinstance(st.test, ast.UnaryOp) and isinstance(st.test.operand, ast.Name):
+                            e2["assume"][st.test.operand.id] = True
+                    arms.append((st.orelse, e2))
+                for body, e_ in arms:
+                    mid = []
+                    run(list(body), e_, mid)
+                    for e3 in mid:
+                        run(rest, e3, out)
+                return
+            # funnel reached inside this statement?
+            for c in ast.walk(st):
+                if c in trims:
+                    sarg = c.args[1] if len(c.args) > 1 else None
+                    state = env["sign"].get(sarg.id, "signed") if isinstance(sarg, ast.Name) else "signed"
+                    results.append((" and ".join(env["desc"]) or "always", state, c.lineno))
+            if isinstance(st, (ast.Return, ast.Raise)):
+                return
+            if isinstance(st, ast.Assign):
+                tg = st.targets[0]
+                if isinstance(tg, ast.Tuple) and isinstance(st.value, ast.Call) and st.value in eigh_calls:
+                    for e_ in tg.elts[:1]:
+                        if isinstance(e_, ast.Name):
+                            env["sign"][e_.id] = "signed"
+                elif isinstance(tg, ast.Name):
+                    if tg.id in env["sign"]:
+                        if is_nonneg_expr(st.value, tg.id):
+                            env["sign"][tg.id] = "nonneg"
+                        elif not any(isinstance(x, ast.Name) and x.id == tg.id for x in ast.walk(st.value)):
+                            env["sign"][tg.id] = "signed"
+                    else:
+                        bv = ev(st.value, env) if isinstance(st.value, (ast.Compare, ast.BoolOp, ast.Constant, ast.UnaryOp, ast.Name)) else None
+                        if isinstance(st.value, (ast.Compare, ast.BoolOp)) or (isinstance(st.value, ast.Constant) and isinstance(st.value.value, bool)):
+                            env["flags"][tg.id] = bv
+                elif isinstance(tg, ast.Subscript) and isinstance(tg.value, ast.Name) and tg.value.id in env["sign"]:
+                    # s[s < 0.0] = 0.0
+                    if isinstance(tg.slice, ast.Compare) and isinstance(tg.slice.ops[0], ast.Lt) and const_value(st.value, None) in (0, 0.0):
+                        env["sign"][tg.value.id] = "nonneg"
+            run(rest, env, out)
+
+        run(list(f.node.body), {"sign": {}, "flags": {}, "assume": {}, "desc": []}, [])
+        if not results:
+            r.skip(f.qualname, "no path to the truncation funnel was enumerated")
+            continue
+        badp = [(d, ln) for d, s_, ln in results if s_ != "nonneg"]
+        if badp:
+            d, ln = badp[0]
+            r.bad(Finding("nonneg-before-sqrt", f.qualname,
+                          f"on the path [{d}] the eigenvalues reach the truncation funnel signed although a square-root absorb mode is possible: sqrt of a negative "
+                          "eigenvalue gives NaN factors for an indefinite hermitian input",
+                          where=f"{m.relpath}:{ln}", operand="signed-spectrum"))
+        else:
+            r.ok(f.qualname, sample={"driver": f.qualname, "paths": len(results), "spectrum at the funnel": "non-negative on every path (under absorb in {both, lsqrt, rsqrt})"})
+    r.floor(n, 3, "hermitian eigendecomposition split drivers")
     return r
